@@ -24,6 +24,8 @@
 (* trailing newline; CRLF files; non-ASCII text.                                          *)
 (*                                                                                      *)
 (* Written from this statement, not from the code.  Pure operators over the record:       *)
+(*   rec.input.via      : "api" (NewMoveClassApp / Analysis / Refactoring in-process) or     *)
+(*        "cli" (one project; the coca binary: `coca refactor -m move.config -p DIR`)       *)
 (*   rec.input.projects : Seq([files, dirs, moves, analyses])   processed in this order    *)
 (*        in ONE process, each by  New; Analysis x analyses; Refactoring                   *)
 (*     files : Seq([pkg, name, eol, final, lines : Seq([k, pre, name, post])])             *)
@@ -176,7 +178,9 @@ ProjectOK(p) ==
            /\ DirOfPkg(PkgOf(mv.to)) \in ExistingDirs(p)
       /\ \A m, n \in DOMAIN p.moves : m # n => p.moves[m].from # p.moves[n].from /\ p.moves[m].to # p.moves[n].to
 
-InputOK(in) == \A i \in DOMAIN in.projects : ProjectOK(in.projects[i])
+InputOK(in) == /\ \A i \in DOMAIN in.projects : ProjectOK(in.projects[i])
+               /\ in.via \in {"api", "cli"}
+               /\ in.via = "cli" => Len(in.projects) = 1 /\ in.projects[1].analyses = 1
 
 -----------------------------------------------------------------------------
 (* Known-defect shapes (spec-computed, narrow): an observed line that is not acceptable    *)
@@ -185,6 +189,8 @@ InputOK(in) == \A i \in DOMAIN in.projects : ProjectOK(in.projects[i])
 TagTypeName == "moveclass.package.last-declared-type"
 TagStaleCopy == "moveclass.copy.not-another-file"
 TagCR == "moveclass.crlf.cr-dropped"
+\* the command analyses the project but never calls Refactoring: the tree is byte for byte what it was
+TagCliNoop == "moveclass.cli.refactoring-not-called"
 
 -----------------------------------------------------------------------------
 (* Diff *)
@@ -204,8 +210,9 @@ BeforeOK(p, before) ==
 
 LineFits(f, sw, obs, i) == i \in DOMAIN obs /\ i \in DOMAIN AllowedShown(f, sw) /\ obs[i] \in AllowedShown(f, sw)[i]
 
-DiffProject(n, p, o) ==
+DiffProject(n, p, o, via) ==
   LET exp == Expected(p, Statement)
+      noop == IF via = "cli" /\ o.after = o.before THEN {TagCliNoop} ELSE {}
       alt(sw) == Expected(p, sw)
       pre == "#" \o ToString(n) \o " "
       expPaths == {exp[i].path : i \in DOMAIN exp}
@@ -213,11 +220,11 @@ DiffProject(n, p, o) ==
         LET f   == exp[i]
             obs == FileAt(o.after, f.path).lines
             all == AllowedShown(f, Statement)
-            tagsOf(j) == (IF LineFits(alt(Sw(FALSE, TRUE, TRUE))[i], Sw(FALSE, TRUE, TRUE), obs, j) THEN {TagTypeName} ELSE {})
+            tagsOf(j) == noop \cup (IF LineFits(alt(Sw(FALSE, TRUE, TRUE))[i], Sw(FALSE, TRUE, TRUE), obs, j) THEN {TagTypeName} ELSE {})
                          \cup (IF LineFits(alt(Sw(TRUE, FALSE, TRUE))[i], Sw(TRUE, FALSE, TRUE), obs, j) THEN {TagStaleCopy} ELSE {})
                          \cup (IF LineFits(alt(Sw(TRUE, TRUE, FALSE))[i], Sw(TRUE, TRUE, FALSE), obs, j) THEN {TagCR} ELSE {})
         IN  IF f.path \notin Paths(o.after)
-            THEN {Item(IF f.made THEN "target-missing" ELSE "file-missing", pre \o f.path, {})}
+            THEN {Item(IF f.made THEN "target-missing" ELSE "file-missing", pre \o f.path, IF f.made THEN noop ELSE {})}
             ELSE (IF Len(obs) = Len(all) THEN {} ELSE {Item("line-count", pre \o f.path, {})})
                  \cup {Item(IF j \in DOMAIN f.lines /\ f.lines[j].t THEN "rewrite-wrong" ELSE "byte-changed",
                             pre \o f.path \o ":" \o ToString(j), tagsOf(j))
@@ -233,5 +240,5 @@ Diff(rec) ==
       ELSE IF o.panic THEN {Item("died", "", {})}
       ELSE IF Len(o.projects) # Len(in.projects) THEN {Item("malformed-observation", "", {})}
       ELSE IF \E n \in DOMAIN in.projects : ~BeforeOK(in.projects[n], o.projects[n].before) THEN {Item("harness-bad-input", "render", {})}
-      ELSE UNION {DiffProject(n, in.projects[n], o.projects[n]) : n \in DOMAIN in.projects}
+      ELSE UNION {DiffProject(n, in.projects[n], o.projects[n], in.via) : n \in DOMAIN in.projects}
 =============================================================================
